@@ -333,32 +333,32 @@ theorem normIndex_nil (i : Int) : normIndex 0 i = Option.none := by
 
 theorem pyIndex_list_nat {l : List PV} {i : Nat} (h : i < l.length) :
     pyIndex (.list l) (.int i) = .ok l[i] := by
-  simp [pyIndex, normIndex_natCast h, List.getD_eq_getElem?_getD, List.getElem?_eq_getElem h]
+  simp [pyIndex, pyIndexSeq, normIndex_natCast h, List.getD_eq_getElem?_getD, List.getElem?_eq_getElem h]
 theorem pyIndex_list_getD {l : List PV} {i : Nat} (h : i < l.length) :
     pyIndex (.list l) (.int i) = .ok (l.getD i .none) := by
-  simp [pyIndex, normIndex_natCast h]
+  simp [pyIndex, pyIndexSeq, normIndex_natCast h]
 theorem pyIndex_tup_nat {l : List PV} {i : Nat} (h : i < l.length) :
     pyIndex (.tup l) (.int i) = .ok l[i] := by
-  simp [pyIndex, normIndex_natCast h, List.getD_eq_getElem?_getD, List.getElem?_eq_getElem h]
+  simp [pyIndex, pyIndexSeq, normIndex_natCast h, List.getD_eq_getElem?_getD, List.getElem?_eq_getElem h]
 theorem pyIndex_str_nat {s : List Char} {i : Nat} (h : i < s.length) :
     pyIndex (.str s) (.int i) = .ok (.str [s[i]]) := by
-  simp [pyIndex, normIndex_natCast h, List.getD_eq_getElem?_getD, List.getElem?_eq_getElem h]
+  simp [pyIndex, pyIndexSeq, normIndex_natCast h, List.getD_eq_getElem?_getD, List.getElem?_eq_getElem h]
 theorem pyIndex_str_getD {s : List Char} {i : Nat} (h : i < s.length) :
     pyIndex (.str s) (.int i) = .ok (.str [s.getD i 'A']) := by
-  simp [pyIndex, normIndex_natCast h]
+  simp [pyIndex, pyIndexSeq, normIndex_natCast h]
 /-- index given as a non-negative `Int` (e.g. the result of `len(x) - 1 - i`). -/
 theorem pyIndex_list_int {l : List PV} {i : Int} (h0 : 0 ≤ i) (h : i < l.length) :
     pyIndex (.list l) (.int i) = .ok (l.getD i.toNat .none) := by
-  simp [pyIndex, normIndex_of_nonneg h0 h]
+  simp [pyIndex, pyIndexSeq, normIndex_of_nonneg h0 h]
 theorem pyIndex_str_int {s : List Char} {i : Int} (h0 : 0 ≤ i) (h : i < s.length) :
     pyIndex (.str s) (.int i) = .ok (.str [s.getD i.toNat 'A']) := by
-  simp [pyIndex, normIndex_of_nonneg h0 h]
+  simp [pyIndex, pyIndexSeq, normIndex_of_nonneg h0 h]
 theorem pyIndex_list_of_ge {l : List PV} {i : Int} (h : (l.length : Int) ≤ i) :
     pyIndex (.list l) (.int i) = .error .indexError := by
-  simp [pyIndex, normIndex_of_ge h]
+  simp [pyIndex, pyIndexSeq, normIndex_of_ge h]
 theorem pyIndex_str_of_ge {s : List Char} {i : Int} (h : (s.length : Int) ≤ i) :
     pyIndex (.str s) (.int i) = .error .indexError := by
-  simp [pyIndex, normIndex_of_ge h]
+  simp [pyIndex, pyIndexSeq, normIndex_of_ge h]
 
 @[simp] theorem pyIndex_list_cons_zero (x : PV) (xs : List PV) :
     pyIndex (.list (x :: xs)) (.int 0) = .ok x :=
@@ -370,23 +370,23 @@ theorem pyIndex_str_of_ge {s : List Char} {i : Int} (h : (s.length : Int) ≤ i)
     pyIndex (.str (c :: cs)) (.int 0) = .ok (.str [c]) :=
   pyIndex_str_nat (s := c :: cs) (i := 0) (by simp)
 @[simp] theorem pyIndex_list_nil (i : Int) : pyIndex (.list []) (.int i) = .error .indexError := by
-  simp [pyIndex, normIndex_nil]
+  simp [pyIndex, pyIndexSeq, normIndex_nil]
 @[simp] theorem pyIndex_str_nil (i : Int) : pyIndex (.str []) (.int i) = .error .indexError := by
-  simp [pyIndex, normIndex_nil]
+  simp [pyIndex, pyIndexSeq, normIndex_nil]
 
 /-- `l[-1]` right after `l.append(x)`. -/
 @[simp] theorem pyIndex_list_append_singleton_neg_one (l : List PV) (x : PV) :
     pyIndex (.list (l ++ [x])) (.int (-1)) = .ok x := by
-  simp [pyIndex, normIndex_neg_one (n := l.length + 1) (by omega)]
+  simp [pyIndex, pyIndexSeq, normIndex_neg_one (n := l.length + 1) (by omega)]
 theorem pyIndex_list_neg_one {l : List PV} (h : l ≠ []) :
     pyIndex (.list l) (.int (-1)) = .ok (l.getLast h) := by
   have hl : 0 < l.length := List.length_pos_iff.mpr h
-  simp [pyIndex, normIndex_neg_one hl, List.getD_eq_getElem?_getD, List.getLast_eq_getElem,
+  simp [pyIndex, pyIndexSeq, normIndex_neg_one hl, List.getD_eq_getElem?_getD, List.getLast_eq_getElem,
     List.getElem?_eq_getElem (show l.length - 1 < l.length by omega)]
 theorem pyIndex_str_neg_one {s : List Char} (h : s ≠ []) :
     pyIndex (.str s) (.int (-1)) = .ok (.str [s.getLast h]) := by
   have hl : 0 < s.length := List.length_pos_iff.mpr h
-  simp [pyIndex, normIndex_neg_one hl, List.getD_eq_getElem?_getD, List.getLast_eq_getElem,
+  simp [pyIndex, pyIndexSeq, normIndex_neg_one hl, List.getD_eq_getElem?_getD, List.getLast_eq_getElem,
     List.getElem?_eq_getElem (show s.length - 1 < s.length by omega)]
 
 /-! ### slices -/
@@ -458,10 +458,10 @@ theorem pySlice_to {α} (l : List α) (b : Nat) : pySlice l 0 (b : Int) = l.take
 
 theorem pySetItem_list_nat {l : List PV} {i : Nat} (h : i < l.length) (x : PV) :
     pySetItem (.list l) (.int i) x = .ok (.list (l.set i x)) := by
-  simp [pySetItem, normIndex_natCast h]
+  simp [pySetItem, pySetItemSeq, normIndex_natCast h]
 theorem pySetItem_list_int {l : List PV} {i : Int} (h0 : 0 ≤ i) (h : i < l.length) (x : PV) :
     pySetItem (.list l) (.int i) x = .ok (.list (l.set i.toNat x)) := by
-  simp [pySetItem, normIndex_of_nonneg h0 h]
+  simp [pySetItem, pySetItemSeq, normIndex_of_nonneg h0 h]
 @[simp] theorem pySetItem_list_cons_zero (y : PV) (l : List PV) (x : PV) :
     pySetItem (.list (y :: l)) (.int 0) x = .ok (.list (x :: l)) :=
   pySetItem_list_nat (l := y :: l) (i := 0) (by simp) x
